@@ -911,6 +911,142 @@ fn chain_stream(sink: &mut Sink, env: &mut Env, rng: &mut Rng, ncfg: usize, per:
     }
 }
 
+// ------------------------------------------------------------------ sessions: reused buffers
+/// "a pure function of the input and the rewrite table": the same objects are used for a sequence of inputs, the way
+/// sudachi-cli / the Python binding / one StatefulTokenizer + one MorphemeList do it.  Every step is compared with the
+/// specification, with the Coq model, and with what a fresh buffer gives for the same text.
+///   mode "buffer":    one InputBuffer: reset -> start_build -> plugin rewrite -> build
+///   mode "tokenizer": one StatefulTokenizer and one MorphemeList: reset -> do_tokenize -> collect_results
+///                     (collect_results swaps the two input buffers, so call N works in the buffer of call N-2)
+fn run_session(d: &JapaneseDictionary, mode: &str, seq: &[String]) -> Vec<Result<(String, Vec<usize>), String>> {
+    use sudachi::analysis::stateful_tokenizer::StatefulTokenizer;
+    use sudachi::prelude::{Mode, MorphemeList};
+    let read = |buf: &InputBuffer| {
+        let cur = buf.current().to_string();
+        let mut offs: Vec<usize> = cur.char_indices().map(|(b, _)| buf.get_original_index(b)).collect();
+        offs.push(buf.get_original_index(cur.len()));
+        (cur, offs)
+    };
+    let mut out = vec![];
+    if mode == "buffer" {
+        let mut buf = InputBuffer::new();
+        for text in seq {
+            let r = catch(|| {
+                buf.reset().push_str(text);
+                buf.start_build().map_err(|e| format!("error: {:?}", e))?;
+                for p in d.input_text_plugins() {
+                    p.rewrite(&mut buf).map_err(|e| format!("error: {:?}", e))?;
+                }
+                buf.build(d.grammar()).map_err(|e| format!("error: {:?}", e))?;
+                Ok(read(&buf))
+            });
+            match r {
+                Ok(x) => out.push(x),
+                Err(p) => {
+                    out.push(Err(format!("panic: {}", p)));
+                    buf = InputBuffer::new(); // the object may be left in any state by a panic
+                }
+            }
+        }
+    } else {
+        let mut tok = StatefulTokenizer::create(d, false, Mode::C);
+        let mut list = MorphemeList::empty(d);
+        for text in seq {
+            let r = catch(|| {
+                tok.reset().push_str(text);
+                tok.do_tokenize().map_err(|e| format!("error: {:?}", e))?;
+                let x = read(tok.verif_input());
+                list.collect_results(&mut tok).map_err(|e| format!("error: {:?}", e))?;
+                Ok(x)
+            });
+            match r {
+                Ok(x) => out.push(x),
+                Err(p) => {
+                    out.push(Err(format!("panic: {}", p)));
+                    tok = StatefulTokenizer::create(d, false, Mode::C);
+                    list = MorphemeList::empty(d);
+                }
+            }
+        }
+    }
+    out
+}
+
+fn session_cases(sink: &mut Sink, d: &JapaneseDictionary, t: &Table, mode: &str, seq: &[String], verbose: bool) {
+    let rs = run_session(d, mode, seq);
+    for (step, (text, r)) in seq.iter().zip(rs.iter()).enumerate() {
+        let fresh = run_plugin(d, text);
+        let want = spec_normalize(&t.pairs, &t.ign, text);
+        let (o, offs) = cout(r);
+        let term = format!(
+            "check_default {} {} {} {} {} {} {}",
+            oracle_term(text),
+            table_term(t),
+            clist(t.ign.iter().map(|c| cn(*c as u32))),
+            ctext(text),
+            cbool(qc_text(text)),
+            o,
+            offs
+        );
+        let dirty = !is_plain(text);
+        // non-trivial: a text that needs the general path, worked on in a buffer that held an earlier text
+        let reused_after = if mode == "buffer" { 1 } else { 2 };
+        let nontrivial = dirty && step >= reused_after;
+        sink.tag(&format!("session_{}_step", mode));
+        if nontrivial {
+            sink.tag("session_dirty_text_in_reused_buffer");
+            if step >= reused_after && is_plain(&seq[step - reused_after]) && !seq[step - reused_after].is_empty() {
+                sink.tag("session_dirty_text_after_clean_text_in_same_buffer");
+            }
+        }
+        let desc = json!({"kind": "session", "mode": mode, "texts": seq, "step": step, "text": text, "table": t.pairs,
+            "exempt": t.ign.iter().map(|c| c.to_string()).collect::<Vec<_>>()});
+        let id = sink.case(term, desc, nontrivial);
+        if verbose {
+            println!("step {} text {:?}\n  reused objects: {:?}\n  fresh buffer  : {:?}\n  specification : {:?}", step, text, r, fresh, want);
+        }
+        let seen: Vec<&String> = seq[..step].iter().collect();
+        match r {
+            Ok((cur, _)) if *cur != want => sink.fail(id, &format!("{} session, input #{} {:?} after {:?} (table {:?} exempt {:?}): text used for lookup is {:?}, specified normalisation is {:?}; a fresh buffer gives {:?}",
+                mode, step + 1, text, seen, t.pairs, t.ign, cur, want, fresh.as_ref().map(|x| &x.0)), ""),
+            Ok(_) if *r != fresh => sink.fail(id, &format!("{} session, input #{} {:?} after {:?}: reused objects give {:?}, a fresh buffer gives {:?}", mode, step + 1, text, seen, r, fresh), ""),
+            Err(e) => sink.fail(id, &format!("{} session, input #{} {:?} after {:?}: {}", mode, step + 1, text, seen, e), ""),
+            _ => {}
+        }
+    }
+}
+
+fn gen_session(rng: &mut Rng, t: &Table) -> Vec<String> {
+    let n = 3 + rng.below(6) as usize;
+    (0..n)
+        .map(|_| {
+            let plain = rng.chance(1, 2);
+            gen_text(rng, t, plain)
+        })
+        .collect()
+}
+
+fn session_stream(sink: &mut Sink, env: &mut Env, rng: &mut Rng, ntables: usize) {
+    for i in 0..ntables {
+        // the first sessions use the shipped test table and inputs of the kind users type
+        let (t, path) = if i == 0 {
+            (Table { pairs: vec![("ｶﾞ".into(), "ガ".into()), ("か\u{3099}".into(), "が".into())], ign: vec!['Ⅲ'] }, None)
+        } else {
+            (gen_table(rng), None::<String>)
+        };
+        let path = path.unwrap_or_else(|| env.file("rewrite", &render_table(&t, rng)));
+        let Ok(d) = env.dict(&env.chardef.clone(), json!({"class": "com.worksap.nlp.sudachi.DefaultInputTextPlugin", "rewriteDef": path})) else { continue };
+        for mode in ["buffer", "tokenizer"] {
+            let seq: Vec<String> = if i == 0 {
+                ["東京都", "京都", "ｱｲｳ", "ＡＢＣ", "abc", "ｶﾞｷﾞ", "に行く", "Ⅲ"].iter().map(|x| x.to_string()).collect()
+            } else {
+                gen_session(rng, &t)
+            };
+            session_cases(sink, &d, &t, mode, &seq, false);
+        }
+    }
+}
+
 // ------------------------------------------------------------------ malformed stream
 /// table_wf (distinct, non-empty keys) is what read_rewrite_lists guarantees: tables violating it must be rejected
 fn malformed(sink: &mut Sink, env: &mut Env) {
@@ -978,6 +1114,20 @@ fn replay(sink: &mut Sink, env: &mut Env, case: &Value) {
             println!("char.def: {}\nbrackets {:?}/{:?} max {} text {:?}", y.chardef_file.clone().unwrap_or(y.chardef.clone()), y.lbs, y.rbs, y.maxlen, text);
             yomi_case(sink, &d, &y, &text, true);
         }
+        "session" => {
+            let t = Table {
+                pairs: case["table"].as_array().map(|a| a.iter().map(|p| (p[0].as_str().unwrap().to_string(), p[1].as_str().unwrap().to_string())).collect()).unwrap_or_default(),
+                ign: strs(&case["exempt"]),
+            };
+            let seq: Vec<String> = case["texts"].as_array().map(|a| a.iter().map(|x| x.as_str().unwrap().to_string()).collect()).unwrap_or_default();
+            let mode = case["mode"].as_str().unwrap_or("tokenizer").to_string();
+            let mut rng = Rng::new(1);
+            let body = render_table(&t, &mut rng);
+            println!("rewrite.def:\n{}session mode {:?}, inputs {:?}", body, mode, seq);
+            let path = env.file("rewrite", &body);
+            let d = env.dict(&env.chardef.clone(), json!({"class": "com.worksap.nlp.sudachi.DefaultInputTextPlugin", "rewriteDef": path})).unwrap();
+            session_cases(sink, &d, &t, &mode, &seq, true);
+        }
         "chain" => {
             let t = Table {
                 pairs: case["table"].as_array().map(|a| a.iter().map(|p| (p[0].as_str().unwrap().to_string(), p[1].as_str().unwrap().to_string())).collect()).unwrap_or_default(),
@@ -1018,7 +1168,7 @@ fn directed(sink: &mut Sink, env: &mut Env, rng: &mut Rng) {
 pub fn run(args: &Args) {
     let mut sink = Sink::new("C07", &args.out, &["Model.Normalize"], args.seed, &args.tier);
     sink.shard_size = 120;
-    sink.rule("(a) DefaultInputTextPlugin: random rewrite.def tables (0..6 keys of 1..3 code points over {a,b,c} or a 53-character alphabet of upper-case / full-width / compatibility / combining / title-case / astral characters; chains of keys that are prefixes of other keys; multi-character values; 0..3 exempt characters) x texts built from keys, truncated keys, exempt characters and the alphabet; one third of the texts are fast-path texts, half of those are re-run next to an unrelated full-width letter (context pair); (b) ProlongedSoundMarkPlugin: random mark sets incl. regex-special characters x symbols (default, multi-character, empty) x texts dense in marks; (c) IgnoreYomiganaPlugin: the natural, the two shipped and random char.def files (short runs, single points, touching runs, ALL blocks, classes overlapping each other and the brackets) / bracket sets / max length; the kanji and reading classes of the oracle and of the Coq model are derived from the TEXT of the char.def (union of definition lines), never from the implementation; for every definition range the code points begin-1, begin, end, end+1 are probed in the kanji position and in the reading position of an otherwise perfect candidate, and random texts dense in kanji-bracket-reading-bracket candidates draw those positions from both sides of every range end; (d) every Unicode scalar value alone and between neighbours for the shipped tables (stride in the quick tier), and the oracle laws over all scalar values. non-trivial = a key occurs or some character changes (a), a run of >= 2 marks occurs (b), something is removed (c); distinct by generated Coq term");
+    sink.rule("(a) DefaultInputTextPlugin: random rewrite.def tables (0..6 keys of 1..3 code points over {a,b,c} or a 53-character alphabet of upper-case / full-width / compatibility / combining / title-case / astral characters; chains of keys that are prefixes of other keys; multi-character values; 0..3 exempt characters) x texts built from keys, truncated keys, exempt characters and the alphabet; one third of the texts are fast-path texts, half of those are re-run next to an unrelated full-width letter (context pair); (b) ProlongedSoundMarkPlugin: random mark sets incl. regex-special characters x symbols (default, multi-character, empty) x texts dense in marks; (c) IgnoreYomiganaPlugin: the natural, the two shipped and random char.def files (short runs, single points, touching runs, ALL blocks, classes overlapping each other and the brackets) / bracket sets / max length; the kanji and reading classes of the oracle and of the Coq model are derived from the TEXT of the char.def (union of definition lines), never from the implementation; for every definition range the code points begin-1, begin, end, end+1 are probed in the kanji position and in the reading position of an otherwise perfect candidate, and random texts dense in kanji-bracket-reading-bracket candidates draw those positions from both sides of every range end; (e) sessions: one InputBuffer (reset / start_build / plugin rewrite / build) and one StatefulTokenizer + one MorphemeList (reset / do_tokenize / collect_results, which swaps the two input buffers) reused over sequences of 3..8 texts mixing already-normalised and to-be-normalised ones; every step is compared with the specification, the Coq model and a fresh buffer (non-trivial = a text needing the general path in a buffer that held an earlier text); (d) every Unicode scalar value alone and between neighbours for the shipped tables (stride in the quick tier), and the oracle laws over all scalar values. non-trivial = a key occurs or some character changes (a), a run of >= 2 marks occurs (b), something is removed (c); distinct by generated Coq term");
     let mut env = Env::new(args);
     if let Some(p) = &args.replay {
         let v: Value = serde_json::from_str(&std::fs::read_to_string(p).unwrap()).unwrap();
@@ -1034,6 +1184,7 @@ pub fn run(args: &Args) {
     psm_stream(&mut sink, &mut env, &mut rng, args.n(70, 800), 8);
     yomi_stream(&mut sink, &mut env, &mut rng, args.n(70, 800), 10);
     chain_stream(&mut sink, &mut env, &mut rng, args.n(40, 600), 8);
+    session_stream(&mut sink, &mut env, &mut rng, args.n(60, 800));
     malformed(&mut sink, &mut env);
     let _ = std::fs::remove_dir_all(&env.dir);
     sink.finish();
